@@ -137,7 +137,10 @@ def stepLine (line : String) : String :=
             match metadata r' k with
             | some v => s!"{strHex k}={showCVal v}"
             | none => s!"{strHex k}=none")
-          pure s!"{created} rt=ok vwn={vwn} aseq={showX (sequence r')} attl={showX (C25.ttl r')} aeol={showX (validity parseTime r')} aval={showX ((getBytes r' "Value").map toHex)} meta={if ms.isEmpty then "-" else ms}"
+          let ents := ";".intercalate ((metadataEntries r').map fun e => s!"{strHex e.1}:{showCVal e.2}")
+          let probes := mds ++ ["Value", "TTL", "_absent"]
+          let mex := String.ofList (probes.map fun k => if metadataExists r' k then '1' else '0')
+          pure s!"{created} rt=ok vwn={vwn} aseq={showX (sequence r')} attl={showX (C25.ttl r')} aeol={showX (validity parseTime r')} aval={showX ((getBytes r' "Value").map toHex)} meta={if ms.isEmpty then "-" else ms} ents={if ents.isEmpty then "-" else ents} mex={mex}"
     r.getD "bad-op"
   | _ => "bad-op"
 
